@@ -19,7 +19,7 @@ from ..common import CACHE, COQ, NCPU, Rng, log, run
 from ..coqbuild import check_property_proofs
 from .. import tb, build, eqhash
 
-MAX_REPORT = 6
+MAX_REPORT = 4
 
 
 def _spawn(exe, inp_path, out_path):
@@ -98,11 +98,12 @@ def check(ctx):
     sample_pool = []
     a_line_of = {}
 
-    def report(env, case, what, found=True):
+    def report(env, case, what, found=True, kind="T3"):
+        # at most one replay per (shape, kind of failure) and MAX_REPORT per kind
         sid = env.shape_id(case[0])
-        if sid in reported or len(reported) >= MAX_REPORT:
+        if (kind, sid) in reported or sum(1 for x in reported if x[0] == kind) >= MAX_REPORT:
             return
-        reported.add(sid)
+        reported.add((kind, sid))
         il, ml = eqhash.verbose_rerun(bindir, model_exe, env, case)
         ctx.violation(what, eqhash.describe(env, case, il, ml), found_input=found)
 
@@ -136,13 +137,13 @@ def check(ctx):
                          "HS": "SipHash equality (vs hash_m equality)", "HR": "equality of the hasher calls (vs hash_m equality)",
                          "DE": "{:?} equality (vs debug_m equality)"}
                 report(env, case, "parse results deviate from the field-by-field model of ==/Hash/Debug in: %s"
-                       % "; ".join(names[k] for k in diff))
+                       % "; ".join(names[k] for k in diff), kind="T2")
             else:
                 if st["eq_pairs_diff_sub"] > 0 and st["ne_pairs"] > 0:
                     ctx.nontrivial.add((env.name, case[0], case[1]))
                 ctx.count("values=%s" % (m if m < 8 else "8-15" if m < 16 else "16+"))
-                if m >= 2 and len(sample_pool) < 200000:
-                    sample_pool.append((env, case, a))
+            if m >= 2 and len(sample_pool) < 300000:
+                sample_pool.append((env, case, a))
             ctx.count("env=%s" % env.name)
             ctx.count("len=%d" % len(case[1]))
         if len(ctx.samples) < 8:
@@ -167,7 +168,7 @@ def check(ctx):
                         rep.update({"order": {"B": "reversed", "C": "shuffled with foreign cases"}[tag], "line_in_this_order": bad[0][:3000],
                                     "line_in_canonical_order": da.get(_key(bad[0]), "")[:3000], "n_differing_cases": len(bad),
                                     "input_file": os.path.relpath(os.path.join(work, "%s.%s.in" % (env.name, tag)), CACHE)})
-                        if ("hist", env.name) not in reported and len(reported) < MAX_REPORT + 2:
+                        if ("hist", env.name) not in reported:
                             reported.add(("hist", env.name))
                             ctx.violation("a parse result depends on what was parsed before: %d cases of %s print a different line "
                                           "in the %s order" % (len(bad), env.name, rep["order"]), rep)
@@ -243,7 +244,7 @@ def check(ctx):
                 "(rule structs: try_parse and try_parse_partial; raw nodes: try_parse_partial_with) and ALL pairs of Ok values are "
                 "compared (==, SipHash-1-3, recorded hasher calls, {:?}), plus self / clone / second parse per value; shapes = misc "
                 "family (13 rule structs with skip ws|comment, 20 leaf shapes) + 30 raw shapes (Seq2-5 of optionals, Skipped with skip, "
-                "choices, repetitions, Insens, PUSH/PEEK/POP spans, arrays, pairs) + 9 rule structs reading the entry point's stack; "
+                "choices, repetitions, Insens, PUSH/PEEK/POP spans, arrays, pairs) + 9 rule structs reading the entry point's stack + every SeqN/ChoiceN (N = 2..12) on strings whose windows differ in exactly one element; "
                 "strings exhaustive up to the environment's length bound; non-trivial = the case holds both a pair of results of "
                 "DIFFERENT sub-inputs that compare equal and a pair that compares unequal; distinct = (shape, string)")
     return ctx.finish(level="proof", trusted_base=tb.BASE + [
